@@ -134,3 +134,72 @@ def router_map_history(h):
             if r.idx == 1:
                 got = bytes(r.f[0].f[0].f)
                 h.check(got == IDS[v], "c11.routermap.pipe-labelled-with-wrong-identity", f"pipe {q} labelled {got!r}, announced {IDS[v]!r}")
+
+
+# ------------------------------------------------------------------------------------------------
+# ROUTER identity gate: a message is handed to the application only once the identity of its connection is final
+ROUTER = "socket::router_socket::RouterSocket"
+AIE2 = "socket::patterns::addressed_ingress::AddressedIngressEngine"
+PMS = "socket::patterns::ready_pipe_queue::PipeMessageSender"
+
+
+def router_identity_gate(h):
+    """RouterSocket::recv_logical_finalized in non-blocking mode (RCVTIMEO 0) over the real AddressedIngressEngine:
+    histories of {a message of pipe p arrives, the identity of pipe p is finalized (finalize_pipe), recv}.
+    A message may be returned only if its pipe is finalized, per-pipe order is the arrival order, and a recv
+    reports would-block only if no message of a finalized pipe is waiting."""
+    from .d_c09 import Fut
+    from ..models import some, none, MapV, dur_ns
+    from .d_c02 import _mk_msg, _tag
+    from .d_c07 import _frames
+    prog = h.it.prog
+    k = h.params.get("ops", 4)
+    eng = Ref(Cell(h.method(AIE2, "new", 4), "ingress"), ())
+    senders = [Ref(Cell(h.method(AIE2, "register_pipe", eng, p, 4, 1), f"s{p}"), ()) for p in range(2)]
+    fields = prog.struct_fields(ROUTER)
+    vals = {"ingress_engine": eng.load(), "pipe_finalized": BoxV(Cell(MapV("HashMap", []), "finalized"), ()),
+            "held_ingress": Agg("{lock}", [MapV("HashMap", [])]), "held_count": Agg("{atomic}", [0]),
+            "identity_finalized_notify": BoxV(Cell(Agg("{notify}", [0, False]), "notify"), ())}
+    sock = Ref(Cell(Agg(ROUTER, [vals.get(f, Opaque(f)) for f in fields]), "router"), ())
+    h.check(all(f in fields for f in vals), "c11.gate.setup-fields", str([f for f in vals if f not in fields]))
+    h.panic_role = "c11.gate"
+    arrived = {0: [], 1: []}        # undelivered tags per pipe, in arrival order
+    finalized = set()
+    nxt = {0: 0x10, 1: 0x20}
+    zero = some(dur_ns(0))
+    for i in range(k):
+        op = h.choose(5, f"op{i}")          # 0/1 message arrives on pipe 0/1; 2/3 finalize pipe 0/1; 4 recv
+        if op in (0, 1):
+            p = op
+            tag = nxt[p]
+            nxt[p] += 1
+            fb = Ref(Cell(h.method("message::FrameBatch", "new"), "fb"), ())
+            h.method("message::FrameBatch", "push", fb, _mk_msg(h, tag, False))
+            r = h.method(PMS, "try_send_sync", senders[p], fb.load())
+            h.check(r.idx == 0, "c11.gate.setup-enqueue")
+            arrived[p].append(tag)
+        elif op in (2, 3):
+            p = op - 2
+            h.method(ROUTER, "finalize_pipe", sock, p)
+            finalized.add(p)
+        else:
+            f = Fut(h, ROUTER, "recv_logical_finalized", [sock, clone_val(zero)])
+            r = f.poll()
+            h.check(r is not None, "c11.gate.nonblocking-recv-parked")
+            if r is None:
+                return
+            deliverable = [p for p in finalized if arrived[p]]
+            if r.idx == 0:
+                pid, batch = r.f[0].f[0], r.f[0].f[1]
+                tag = _tag(_frames(batch)[0])
+                h.check(pid in finalized, "c11.gate.message-delivered-before-the-identity-of-its-connection-was-final",
+                        f"recv returned a message of pipe {pid} whose identity is not finalized (finalized: {sorted(finalized)})")
+                h.check(bool(arrived.get(pid)) and arrived[pid][0] == tag, "c11.gate.per-connection-order-broken-or-message-duplicated",
+                        f"pipe {pid}: returned {hex(tag) if isinstance(tag, int) else tag}, oldest undelivered {[hex(x) for x in arrived.get(pid, [])]}")
+                if arrived.get(pid) and arrived[pid][0] == tag:
+                    arrived[pid].pop(0)
+                h.cover("c11.gate.released-after-finalize")
+            else:
+                h.check(not deliverable, "c11.gate.message-of-a-finalized-connection-withheld",
+                        f"recv reported {r.f[0].vname} although pipe(s) {deliverable} are finalized and have messages waiting {[[hex(x) for x in arrived[p]] for p in deliverable]}")
+                h.cover("c11.gate.wouldblock-while-pending", any(arrived[p] for p in (0, 1)))
